@@ -140,6 +140,13 @@ def _exec_case(ctx, mod, case):
         import traceback
 
         sess.notes["cases_aborted_by_exception"] += 1
+        if getattr(mod, "RAISES_ARE_VIOLATIONS", False):
+            # every generated case of this property lies inside its quantifier: the API must answer, not raise
+            tb = " <- ".join(f"{fs.name}:{fs.lineno}" for fs in traceback.extract_tb(e.__traceback__)[-5:])
+            sess.check("R-noraise", False, "the library raised on an in-scope case", {"exc": repr(e), "where": tb}, key="raised-" + type(e).__name__)
+            nontrivial = False
+            sess.count_case(_fast_hash(case), False, None)
+            return
         if len(sess.case_errors) < 5:
             sess.case_errors.append(f"{type(e).__name__}: {e} | " + " <- ".join(
                 f"{fs.name}:{fs.lineno}" for fs in traceback.extract_tb(e.__traceback__)[-4:]))
